@@ -30,5 +30,6 @@ PROP = dict(
           "set-L1-head / snapshot op on a fresh copy of the image the script prefix left, blocks of up to 3 transactions incl. L1 handlers."),
     assumptions=["memory backend image = crash image; on Pebble the image is a checkpoint of the real store (Pebble's WAL replay / recovery trusted)",
                  "pruning policy (which floor is chosen) is exercised in C16, not here"],
-    runs=[dict(run="^Test(Prop|Known)")],
+    # two runs = two sets of shard processes side by side (the script test alone takes most of the quick budget)
+    runs=[dict(run="^TestPropCrashAndFailedCommit"), dict(run="^Test(PropPruneInterrupted|PropFailedWriteInsideOp|Known)")],
 )
